@@ -2,6 +2,7 @@ package main
 
 import (
 	"fmt"
+	"hash/fnv"
 	"strconv"
 	"strings"
 
@@ -19,6 +20,7 @@ import (
 //   free <off>             freeAtLocked(off)            -> "ok <hdr>" | "err <hdr>"
 //   allocw <rows>          AllocateAndWrite(int64 batch of <rows> rows); the model line is enriched with the two
 //                          Arrow-derived sizes (estimate, exact total)  -> "ok <off> <len> <hdr>" | "fail <hdr>"
+//   fill <n> <size>        n times allocateLocked(size)  -> "filled <successes> <hdr>"
 //   reset                  Reset()                      -> "ok <hdr>"
 //   attach                 second attachment of the same OS object reads the table -> "table a:b,c:d"
 // <hdr> is the hex of the live header prefix (24 fixed bytes + 16 per counted entry).
@@ -107,6 +109,23 @@ func c34Gen(g *Gen) {
 		lines = append(lines, "attach")
 		g.Case(lines...)
 	}
+	// table-capacity boundary: fill to just below ShmMaxAllocs, then cross it, free, re-cross
+	for i := 0; i < g.N(6, 60); i++ {
+		near := vgirpc.ShmMaxAllocs - r.Range(0, 3)
+		lines := []string{"new 65536", fmt.Sprintf("fill %d 1", near)}
+		for k := 0; k < r.Range(4, 12); k++ {
+			switch r.Intn(4) {
+			case 0:
+				lines = append(lines, fmt.Sprintf("free %d", 65536+r.Intn(near)))
+			case 1:
+				lines = append(lines, fmt.Sprintf("fill %d 1", r.Range(1, 5)))
+			default:
+				lines = append(lines, fmt.Sprintf("alloc %d", r.Range(1, 3)))
+			}
+		}
+		lines = append(lines, "attach")
+		g.Case(lines...)
+	}
 	if g.Thorough() {
 		// exhaustive: all op sequences of length <= 5 over a small alphabet on a 16-byte data area
 		alpha := []string{"alloc 4", "alloc 8", "alloc 16", "free 65536", "free 65540", "free 65544", "reset"}
@@ -133,7 +152,15 @@ func c34Exec(c *Case) {
 			seg.Close()
 		}
 	}()
-	hdr := func() string { return X(seg.VerifHeaderPrefix()) }
+	hdr := func() string {
+		h := seg.VerifHeaderPrefix()
+		if n := (len(h) - 24) / 16; n > 64 {
+			f := fnv.New64a()
+			f.Write(h)
+			return fmt.Sprintf("fnv:%d:%d", f.Sum64(), n)
+		}
+		return X(h)
+	}
 	for _, l := range c.Lines {
 		f := strings.Fields(l)
 		if len(f) == 0 {
@@ -190,6 +217,18 @@ func c34Exec(c *Case) {
 				c.Stat("alloc-fail")
 				c.Out(l, "fail "+hdr())
 			}
+			c34Oracle(c, seg, l)
+		case "fill":
+			n, _ := strconv.Atoi(f[1])
+			sz, _ := strconv.Atoi(f[2])
+			okc := 0
+			for i := 0; i < n; i++ {
+				if _, ok := seg.VerifAllocate(sz); ok {
+					okc++
+				}
+			}
+			c.Stat("fill")
+			c.Out(l, fmt.Sprintf("filled %d %s", okc, hdr()))
 			c34Oracle(c, seg, l)
 		case "free":
 			n, _ := strconv.ParseUint(f[1], 10, 64)
